@@ -13,6 +13,10 @@ _ADDR = re.compile(r'0x[0-9a-f]{6,}')
 def scrub(v):
     """Replace ids / timestamps in any JSON-like value."""
     if isinstance(v, str):
+        if v.startswith('Failure caused by error in tasks:'):
+            # compared by class: which tasks failed, not the listing of
+            # every (also superseded) action execution below them
+            v = v.split('\n', 1)[0]
         v = _UUID.sub('<id>', v)
         v = _TS.sub('<ts>', v)
         v = _ADDR.sub('<addr>', v)
